@@ -19,11 +19,16 @@ def code_call(self, n, env):
     E = _eng()
     f = n.func
     line = getattr(n, "lineno", 0)
-    kwargs = {k.arg: k.value for k in n.keywords}
+    kwargs = {(k.arg if k.arg is not None else "kwargs"): k.value for k in n.keywords}      # f(**m): the map is the parameter `kwargs`
     if isinstance(f, ast.Name):
         name = f.id
         if name in env.locals:
             fv = env.locals[name]
+            if fv.s == ANY and self.unit.apply_fun:
+                # a first-class callable held in a value of sort ANY (e.g. a field type used as a converter): t(v) is apply(t, v)
+                sf = self.unit.spec_funs[self.unit.apply_fun]
+                args_ = [ops.coerce(self.ev(a, env), srt) for a, srt in zip(n.args, sf.args[1:])]
+                return V(sf.decl(fv.t, *[a.t for a in args_]), sf.res)
             if isinstance(fv.s, FunS):
                 return self.call_uninterpreted(fv, name, [self.ev(a, env) for a in n.args], line)
             if isinstance(fv.s, RefS):
@@ -107,7 +112,16 @@ def code_call(self, n, env):
                     return self.call_contract(cfc, target, args_, kwargs, line, f.attr)
                 raise E.Unsupported("method %s.%s has no contract in unit %s (line %d)" % (recv.s.cls, f.attr, self.unit.name, line))
             if fc.kind in ("static", "classmethod"):
-                return self.call_contract(fc, None, [self.ev(a, env) for a in n.args], kwargs, line, f.attr)
+                args_ = [self.ev(a, env) for a in n.args]
+                first = next(iter(fc.params), None)
+                if fc.kind == "classmethod" and first is not None and isinstance(fc.params[first], RefS) and self.unit.class_object_field:
+                    # the class object is an explicit parameter of the contract: the receiver itself when it is a class object,
+                    # the receiver's class (ghost field) when the method is called through an instance
+                    if recv.s.cls == fc.params[first].cls or fc.params[first].cls in self.eng.mro(recv.s.cls):
+                        args_ = [recv] + args_
+                    else:
+                        args_ = [self.hread(env, recv, self.unit.class_object_field)] + args_
+                return self.call_contract(fc, None, args_, kwargs, line, f.attr)
             if getattr(self, "under_binder", 0):
                 # inside a comprehension element / quantified expression: only pure, definable methods (no fresh result constant)
                 return self.spec_call_pure(fc, recv, [self.ev(a, env) for a in n.args], env)
@@ -371,6 +385,11 @@ def builtin_call(self, name, n, env):
     if name == "isinstance":
         v = self.ev(n.args[0], env)
         tn = n.args[1]
+        if self.unit.isinstance_fun and not isinstance(tn, (ast.Name, ast.Tuple)):
+            # isinstance(x, <expression denoting a class object>): the unit's uninterpreted subclass test
+            cv = self.ev(tn, env)
+            sf = self.unit.spec_funs[self.unit.isinstance_fun]
+            return V(sf.decl(ops.coerce(v, sf.args[0]).t, ops.coerce(cv, sf.args[1]).t), BOOL)
         tnames = [t.id if isinstance(t, ast.Name) else getattr(t, "attr", "?") for t in (tn.elts if isinstance(tn, ast.Tuple) else [tn])]
         return V(self.isinstance_of(v, tnames), BOOL)
     if name in ("list", "tuple", "iter"):
@@ -797,6 +816,10 @@ def spec_call(self, n, env):
         return V(sf.decl(*[v.t for v in vs]), sf.res)
     if name in env.locals and isinstance(env.locals[name].s, FunS):
         return self.call_uninterpreted(env.locals[name], name, [self.ev(a, env) for a in A], 0)
+    if name in env.locals and env.locals[name].s == ANY and self.unit.apply_fun:
+        sf = self.unit.spec_funs[self.unit.apply_fun]
+        args_ = [ops.coerce(self.ev(a, env), srt) for a, srt in zip(A, sf.args[1:])]
+        return V(sf.decl(env.locals[name].t, *[a.t for a in args_]), sf.res)
     if name in env.locals and isinstance(env.locals[name].s, RefS):
         fc = self.eng.find_contract(env.locals[name].s.cls, "__call__")
         if fc is not None:
@@ -867,9 +890,10 @@ def spec_call_pure(self, fc, recv, args, env):
     """use of a pure method inside a contract: unfolds `ensures result == <expr>` definitions"""
     E = _eng()
     defs = [e for e, l in fc.ensures_l if e.replace(" ", "").startswith("result==")]
-    if not defs or fc.modifies_l:
+    sames = [e for e, l in fc.ensures_l if e.replace(" ", "").startswith("same(result,") and e.strip().endswith(")")]
+    if not (defs or sames) or fc.modifies_l:
         raise E.StaleContract("%s is not usable in a contract (needs a single `result == ...` definition and no modifies)" % fc.qualname)
-    expr = defs[0].split("==", 1)[1]
+    expr = defs[0].split("==", 1)[1] if defs else sames[0].strip()[:-1].split(",", 1)[1]
     names = [p for p in fc.params]
     args = [ops.coerce(self.fix_empty(a, fc.params[p]), fc.params[p]) if not isinstance(fc.params[p], FunS) else a for p, a in zip(names, args)]
     loc = dict(zip(names, args))
